@@ -205,3 +205,176 @@ def run_threaded(ctx, fn, inner_cases, threads=(2, 3, 4), sub="numerical threads
         return []
     first = core.run_forked(ctx, case_threaded, cases[:1], sub=sub, timeout=1800)  # compiles
     return first + core.run_forked(ctx, case_threaded, cases[1:], sub=sub, timeout=1800)
+
+
+# ------------------------------------------------------------------------------------------------------------------
+# The CALLER'S process environment.  A result depends on the arguments only - not on the numpy error state the caller works
+# under, on warnings being errors, on the logging set-up, the working directory, the global random state, the print options
+# or the thread that calls.  Each environment is entered in a pristine forked child (first use happens INSIDE it); every
+# request of callforms.requests() is then either refused (an exception - "refuse or be right") or answered as a fresh ordinary
+# process answers it; afterwards the ordinary environment is restored and every request must be answered, and answered
+# right - which is how a setting the library leaked (np.seterr, a warnings filter, a changed directory) shows.
+CALLER_ENVS = ("errstate-raise", "errstate-ignore", "warnings-are-errors", "warnings-silenced", "cwd-elsewhere", "cwd-read-only", "logging-debug-handler",
+               "global-rng-seeded", "printoptions", "non-main-thread", "default-float-promotion-env")
+
+
+def _enter_env(env):
+    import logging
+    import random
+    import warnings
+
+    if env == "errstate-raise":
+        # division by zero, invalid operations and overflow raise; underflow (exp of a very negative number flushing to
+        # zero, which any decaying solution does) stays silent - a caller who makes THAT an error has asked for the exception
+        old = np.seterr(divide="raise", invalid="raise", over="raise", under="ignore")
+        return lambda: np.seterr(**old)
+    if env == "errstate-ignore":
+        old = np.seterr(all="ignore")
+        return lambda: np.seterr(**old)
+    if env in ("warnings-are-errors", "warnings-silenced"):
+        saved = warnings.filters[:]
+        if env == "warnings-are-errors":
+            # numerical and user warnings become errors; deprecation notices of third-party packages (numpy about netCDF4,
+            # xarray about pandas) are not the library's to avoid
+            warnings.simplefilter("error", RuntimeWarning)
+            warnings.simplefilter("error", UserWarning)
+        else:
+            warnings.simplefilter("ignore")
+
+        def back():
+            warnings.filters[:] = saved
+        return back
+    if env in ("cwd-elsewhere", "cwd-read-only"):
+        here = os.getcwd()
+        d = os.path.join(here, "elsewhere")
+        os.makedirs(d, exist_ok=True)
+        os.chdir(d)
+        if env == "cwd-read-only":
+            os.chmod(d, 0o555)
+
+        def back():
+            os.chmod(d, 0o755)
+            os.chdir(here)
+        return back
+    if env == "logging-debug-handler":
+        root = logging.getLogger()
+        lvl, handlers, dis = root.level, root.handlers[:], logging.root.manager.disable
+        logging.disable(logging.NOTSET)
+        h = logging.StreamHandler(open(os.devnull, "w"))
+        root.addHandler(h)
+        root.setLevel(logging.DEBUG)
+
+        def back():
+            root.handlers[:] = handlers
+            root.setLevel(lvl)
+            logging.disable(dis)
+        return back
+    if env == "global-rng-seeded":
+        st, st2 = np.random.get_state(), random.getstate()
+        np.random.seed(12345)
+        random.seed(12345)
+
+        def back():
+            np.random.set_state(st)
+            random.setstate(st2)
+        return back
+    if env == "printoptions":
+        old = np.get_printoptions()
+        np.set_printoptions(precision=2, threshold=5, suppress=True)
+        return lambda: np.set_printoptions(**old)
+    if env == "default-float-promotion-env":
+        old = {k: os.environ.get(k) for k in ("OMP_NUM_THREADS", "TZ", "LANG", "LC_ALL", "LC_NUMERIC", "TMPDIR")}
+        os.environ.update({"OMP_NUM_THREADS": "1", "TZ": "Pacific/Kiritimati", "LANG": "de_DE.UTF-8", "LC_ALL": "de_DE.UTF-8", "LC_NUMERIC": "de_DE.UTF-8", "TMPDIR": "/nonexistent-tmpdir"})
+        import time as _t
+        try:
+            _t.tzset()
+        except Exception:  # noqa
+            pass
+
+        def back():
+            for k, v_ in old.items():
+                if v_ is None:
+                    os.environ.pop(k, None)
+                else:
+                    os.environ[k] = v_
+        return back
+    if env == "non-main-thread":
+        return lambda: None
+    raise core.HarnessError("unknown caller environment %r" % env)
+
+
+def case_caller_refs(case):
+    from vf import callforms
+
+    S = sl.solver()
+    out = {}
+    for name, kw in callforms.requests().items():
+        g, c, f = S(**kw)
+        out[name] = (np.asarray(c), np.asarray(f), [np.asarray(a) for a in g])
+    with open(case["path"], "wb") as fh:
+        pickle.dump(out, fh)
+    return {"v": [], "nt": True, "n": len(out)}
+
+
+def case_caller_env(case):
+    import threading
+
+    from vf import callforms
+
+    env = case["env"]
+    with open(case["refs"], "rb") as fh:
+        refs = pickle.load(fh)
+    S = sl.solver()
+    reqs = callforms.requests()
+    v = []
+    n = 0
+    refused = {}
+
+    def judge(phase, name, kw, may_refuse):
+        box = {}
+
+        def call():
+            try:
+                box["r"] = S(**kw)
+            except BaseException as e:  # noqa - a refusal of any kind
+                box["e"] = e
+        if env == "non-main-thread" and phase == "inside":
+            t = threading.Thread(target=call)
+            t.start()
+            t.join()
+        else:
+            call()
+        if "e" in box:
+            if may_refuse:
+                refused[name] = type(box["e"]).__name__
+            else:
+                v.append({"sub": "caller-environment", "sig": "caller-environment/%s/raises-afterwards" % env, "msg": "after a session under [%s] and back in the ordinary environment, request %s raises %s: %s" % (env, name, type(box["e"]).__name__, str(box["e"])[:160])})
+            return
+        g, c, f = box["r"]
+        c0, f0, g0 = refs[name]
+        tol = 1e-12 if kw.get("precision") == "double" else 1e-6
+        for nm, a, b in (("conc", np.asarray(c), c0), ("flux", np.asarray(f), f0)):
+            e = sl.relerr(a, b, max(np.abs(b).max(), 1e-300)) if a.shape == b.shape else float("inf")
+            if not e <= tol:
+                v.append({"sub": "caller-environment", "sig": "caller-environment/%s/%s" % (env, phase), "msg": "[%s, %s] request %s: %s differs from the answer of a fresh ordinary process by %.2e of the field maximum" % (env, phase, name, nm, e)})
+        for i in range(3):
+            if not np.array_equal(np.asarray(g[i]), g0[i]):
+                v.append({"sub": "caller-environment", "sig": "caller-environment/%s/%s-grid" % (env, phase), "msg": "[%s, %s] request %s: grid[%d] differs from the fresh ordinary process" % (env, phase, name, i)})
+
+    back = _enter_env(env)
+    try:
+        for name, kw in reqs.items():
+            n += 1
+            judge("inside", name, kw, True)
+    finally:
+        back()
+    for name, kw in reqs.items():
+        n += 1
+        judge("afterwards", name, kw, False)
+    return {"v": v[:6], "nt": True, "n": n, "obs": {"environment": env, "refused_inside": refused}}
+
+
+def run_caller_envs(ctx, envs=CALLER_ENVS, sub="the caller's process environment (numpy error state, warnings, logging, cwd, RNG, thread): refuse or be right; nothing leaks"):
+    path = os.path.join(ctx.tmp_root, "caller_env_refs.pkl")
+    core.run_forked(ctx, case_caller_refs, [{"path": path}], sub=sub)
+    return core.run_forked(ctx, case_caller_env, [{"env": e, "refs": path} for e in envs], sub=sub)
